@@ -334,7 +334,7 @@ class RenderIterator:
             renderable_data.update(frame_offset=offset, seek_whence=whence)
         else:
             next_frame = renderable_data.frame_offset
-            if next_frame == frame_count and self.loop != 1:
+            if next_frame == frame_count and self._loops_left != 1:
                 # Between two loops; the next frame is the first of the next loop
                 next_frame = 0
 
@@ -532,7 +532,7 @@ class RenderIterator:
         indefinite = renderable.frame_count is FrameCount.INDEFINITE
         self._closed = False
         self._renderable = renderable
-        self.loop = self._loops = 1 if indefinite else loops
+        self.loop = self._loops = self._loops_left = 1 if indefinite else loops
         self._cached = (
             False
             if indefinite
@@ -564,7 +564,7 @@ class RenderIterator:
         if frame_count is FrameCount.INDEFINITE:
             frame_count = 1
         definite = frame_count > 1
-        loop = self.loop
+        loop = self._loops_left
         CURRENT = Seek.CURRENT
         renderable_data.frame_offset = 0
         cache: list[tuple[Frame | None, Size, int | FrameDuration, RenderArgs]] | None
@@ -640,7 +640,7 @@ class RenderIterator:
             # INDEFINITE can never reach here
             frame_no = renderable_data.frame_offset = 0
             if loop > 0:  # Avoid infinitely large negative numbers
-                self.loop = loop = loop - 1
+                self.loop = self._loops_left = loop = loop - 1
 
 
 # Exceptions ===================================================================
